@@ -47,6 +47,7 @@ theorem prefix_invariant (s : Pipe × Reader × List UInt8) (st : Step) (h : Inv
         rw [this]
         refine ⟨by simp [h1, List.append_assoc, List.take_append_drop], ?_⟩
         intro hd'; exact absurd hd' hd
+  | snapshot => exact ⟨h1, h2⟩
 
 /-- run a whole schedule -/
 def run (s : Pipe × Reader × List UInt8) (sts : List Step) : Pipe × Reader × List UInt8 := sts.foldl step s
@@ -75,5 +76,31 @@ theorem leak_exit_keeps_prefix (sts : List Step) : (run init sts).2.1.acc <+: (r
     test and of a setup script (also after a timeout termination), with nothing before its loop but the timer and no way out of
     it but its `break`s -/
 theorem pipes_are_always_drained : ∀ r ∈ Gen.drainAlways, r.2 = true := by decide
+
+/-- drop the information requests from a schedule -/
+def withoutSnapshots (sts : List Step) : List Step := sts.filter fun st => match st with | .snapshot => false | _ => true
+
+/-- **answering an information request takes nothing away from what is captured**: a schedule with snapshots taken at any
+    moments ends in exactly the state of the same schedule without them — so `complete_at_eof` and the prefix invariant hold
+    with information requests interleaved anywhere — and what a snapshot shows is a prefix of what was written -/
+theorem snapshots_change_nothing (sts : List Step) (s : Pipe × Reader × List UInt8) :
+    run s sts = run s (withoutSnapshots sts) := by
+  induction sts generalizing s with
+  | nil => rfl
+  | cons st sts ih =>
+    cases st with
+    | snapshot => simpa [run, withoutSnapshots, step] using ih s
+    | write c => simpa [run, withoutSnapshots] using ih (step s (.write c))
+    | close => simpa [run, withoutSnapshots] using ih (step s .close)
+    | read n => simpa [run, withoutSnapshots] using ih (step s (.read n))
+
+theorem snapshot_is_a_prefix (sts : List Step) : snapshotOf (run init sts) <+: (run init sts).2.2 := by
+  have := (prefix_invariant_run sts).1
+  unfold snapshotOf; rw [this]; exact List.prefix_append _ _
+
+/-- **… and in imp.rs, as read on this run, a snapshot is a copy**: `ChildOutputMut::snapshot` and
+    `ChildAccumulator::snapshot_in_progress` borrow the accumulators immutably, and every stream's snapshot is
+    `clone().freeze()` — nothing is split off, taken or cleared (the model's `.snapshot` step leaves the state as it is) -/
+theorem snapshot_is_a_copy : Gen.snapshotShape.length = 4 ∧ ∀ r ∈ Gen.snapshotShape, r.2 = true := by decide
 
 end NextestModel.C16
